@@ -77,6 +77,24 @@ struct Cpg {
     std::string keywords() const { return arrkw("COORD", coord) + arrkw("ZCORN", zcorn); }
 };
 
+// HANDEDNESS: hand bit0 mirrors the pillars in x (x -> xmax - x), bit1 in y.  ZCORN and all cell indices stay, so cell
+// (i,j,k) of the mirrored grid is the mirror image of cell (i,j,k) of the original (x then DEcreases with I): a legal
+// COORD/ZCORN grid, left-handed for exactly one mirrored axis.  A mirror is an isometry: volumes are those of the
+// original cells, centres/corners are mirrored, depths and cell sizes unchanged.
+static const char* hand_name[4] = {"right-handed", "mirrored in x (left-handed)", "mirrored in y (left-handed)", "mirrored in x and y"};
+static const char* hand_tag[4] = {"", "-mirrorX", "-mirrorY", "-mirrorXY"};
+struct Mirror { int hand = 0; double xm = 0, ym = 0; };
+static Mirror mirror_of(const Cpg& g, int hand) {
+    Mirror m; m.hand = hand;
+    for (size_t p = 0; p < g.coord.size(); p += 3) { m.xm = std::max(m.xm, g.coord[p]); m.ym = std::max(m.ym, g.coord[p + 1]); }
+    return m;
+}
+static Cpg mirrored(const Cpg& g, const Mirror& m) {
+    Cpg r = g;
+    for (size_t p = 0; p < r.coord.size(); p += 3) { if (m.hand & 1) r.coord[p] = m.xm - r.coord[p]; if (m.hand & 2) r.coord[p + 1] = m.ym - r.coord[p + 1]; }
+    return r;
+}
+
 // per-cell observation vector layout
 static const int NQ = 35;
 static const char* qname(int o) { if (o == 0) return "volume"; if (o <= 3) return "centre"; if (o == 4) return "depth"; if (o <= 7) return "dims"; if (o == 8) return "thickness"; if (o == 9) return "volume-ijk"; if (o == 10) return "activeVolume"; return "corner"; }
@@ -123,6 +141,15 @@ static std::vector<double> expect_from_cpg(const Cpg& g, const std::vector<doubl
         q[0] = q[9] = q[10] = vol[c];
     }
     return o;
+}
+
+static void mirror_expect(std::vector<double>& o, const Mirror& m) {
+    for (size_t p = 0; p < o.size(); ++p) {
+        const int q = p % NQ;
+        const bool isx = q == 1 || (q >= 11 && (q - 11) % 3 == 0), isy = q == 2 || (q >= 11 && (q - 11) % 3 == 1);
+        if (isx && (m.hand & 1)) o[p] = m.xm - o[p];
+        if (isy && (m.hand & 2)) o[p] = m.ym - o[p];
+    }
 }
 
 // compare obs (SI) with exp (deck units, scaled by f); returns "" or the first
@@ -514,6 +541,25 @@ static void case_B(int nx, int ny, int nz, int ax, int ay, int az, int top, int 
             R->violation("C13:forms:" + fname + ":throws", "form " + fname + " cannot be built: " + std::string(e.what()).substr(0, 300) + " in case " + cas, rpj(cas));
         }
     }
+    // handedness: the COORD/ZCORN description mirrored in x, in y, in both; same closed form up to the mirror, volumes positive
+    for (int hand = 1; hand < 4; ++hand) {
+        const std::string fname = std::string("COORD-ZCORN") + hand_tag[hand];
+        R->count("form_" + fname);
+        try {
+            const Cpg c0 = cpg_from_b(m); const Mirror mi = mirror_of(c0, hand); const Cpg c = mirrored(c0, mi);
+            std::vector<double> expm = exp; mirror_expect(expm, mi);
+            auto deck = g_parser->parseString(deck_head(nx, ny, nz, u) + c.keywords() + "END\n");
+            EclipseGrid g(deck);
+            const std::vector<double> obs = observe_geom(g);
+            for (size_t cc = 0; cc < m.n(); ++cc) if (!(obs[cc * NQ] > 0 && obs[cc * NQ + 9] > 0 && obs[cc * NQ + 10] > 0)) { R->violation("C13:forms:" + fname + ":positivity", "volume of cell " + S(cc) + " of the COORD/ZCORN grid " + hand_name[hand] + " is not positive: getCellVolume " + vf::fmt17(obs[cc * NQ]) + ", activeVolume " + vf::fmt17(obs[cc * NQ + 10]) + " (" + UNITS[u].kw + ") in case " + cas, rpj(cas)); break; }
+            std::string msg, q = cmp_geom(obs, expm, f, 1e-12, cscale, nx, ny, msg);
+            if (!q.empty()) R->violation("C13:forms:" + fname + ":" + q, std::string("COORD/ZCORN grid ") + hand_name[hand] + " (" + UNITS[u].kw + "): " + msg + " (closed form of the DX/DY/DZ description, mirrored) in case " + cas, rpj(cas));
+            h = vf::fnv(obs.data(), 8 * obs.size(), h ? h : 1469598103934665603ull);
+            queue_threads(cas, g);
+        } catch (const std::exception& e) {
+            R->violation("C13:forms:" + fname + ":throws", "form " + fname + " cannot be built: " + std::string(e.what()).substr(0, 300) + " in case " + cas, rpj(cas));
+        }
+    }
     R->observe(h);
 }
 
@@ -562,7 +608,7 @@ static void case_P(int nx, int ny, int nz, int az, int top, int u, int L, int wh
 //   ("planar faces") and reports under separate ":nonplanar" keys.
 // Exact volume: parallel  : DX'*DY'*(mean bottom z - mean top z)            (shear has determinant 1)
 //               otherwise : DX'*DY'*H*[G(tb)-G(tt)],  G(t)=t+(a+b)t^2/2+ab t^3/3, a=ax-1, b=ay-1, t=(z-ZT)/H
-struct CSpec { int nx, ny, nz, sp, pil, surf, fault; };
+struct CSpec { int nx, ny, nz, sp, pil, surf, fault; int hand = 0; };
 static const double C_ZT = 80.0, C_ZB = 150.0;
 static bool c_parallel(const CSpec& s) { return s.pil < 9; }
 static bool c_valid(const CSpec& s) { return c_parallel(s) || s.surf == 0; }
@@ -626,6 +672,7 @@ static CGeo build_c(const CSpec& s) {
             r.vol[i + size_t(s.nx) * (j + size_t(s.ny) * k)] = DX * DY * H * (Gf((mb - C_ZT) / H) - Gf((mt - C_ZT) / H));
         }
     }
+    if (s.hand) r.g = mirrored(r.g, mirror_of(r.g, s.hand));      // volumes are those of the unmirrored cells (isometry)
     return r;
 }
 
@@ -656,7 +703,7 @@ static Cpg refine(const Cpg& p) {
 }
 
 static std::string c_np(const CSpec& s) { return s.surf == 4 ? ":nonplanar" : ""; }
-static std::string c_class(const CSpec& s) { return std::string(s.surf == 4 ? "NON-planar bilinear faces (trilinear-cell convention), " : "") + std::string(c_parallel(s) ? "parallel sheared pillars" : "converging/diverging pillars, horizontal faces") + ", pil " + S(s.pil) + " surf " + S(s.surf) + " fault " + S(s.fault); }
+static std::string c_class(const CSpec& s) { return std::string(s.surf == 4 ? "NON-planar bilinear faces (trilinear-cell convention), " : "") + std::string(c_parallel(s) ? "parallel sheared pillars" : "converging/diverging pillars, horizontal faces") + ", pil " + S(s.pil) + " surf " + S(s.surf) + " fault " + S(s.fault) + (s.hand ? std::string(", ") + hand_name[s.hand] : std::string()); }
 
 // judge one corner-point grid against exact volumes; returns the library grid
 static std::unique_ptr<EclipseGrid> judge_c(const CSpec& s, const CGeo& cg, int u, const std::string& cas, const std::vector<int>* act = nullptr) {
@@ -708,8 +755,8 @@ static void case_C(const CSpec& s, int u, const std::string& cas) {
 // case "D v": 12x12x6 grids for the thread differential (also judged for exact volumes)
 static void case_D(int v, const std::string& cas) {
     static const int PIL[4] = {0, 5, 7, 9 + 7}, SURF[4] = {0, 2, 3, 0}, FAULT[4] = {0, 1, 4, 3};
-    const int gi = v % 4, ai = v / 4;
-    CSpec s{12, 12, 6, 1, PIL[gi], SURF[gi], FAULT[gi]};
+    const int gi = v % 4, ai = (v / 4) % 3;
+    CSpec s{12, 12, 6, 1, PIL[gi], SURF[gi], FAULT[gi], v / 12};
     const CGeo cg = build_c(s);
     std::vector<int> act = structured(12, 12, 6)[ai == 0 ? 0 : ai == 1 ? 11 : 13];
     try { auto g = judge_c(s, cg, 0, cas, &act); if (g->getNumActive() != (size_t)std::count(act.begin(), act.end(), 1)) R->violation("C13:index:numActive:ctor", "12x12x6 grid: wrong active count", rpj(cas)); queue_threads(cas, *g); }
@@ -728,7 +775,10 @@ static std::string e_geo_keywords(int geo, int nx, int ny, int nz) {
     case 0: return b_keywords(make_b(nx, ny, nz, 2, 1, 3, 1), F_DXDYDZ_TOPS);
     case 1: return b_keywords(make_b(nx, ny, nz, 1, 2, 2, 2), F_DXV_DEPTHZ);
     case 2: return build_c(CSpec{nx, ny, nz, 1, 5, 2, 1}).g.keywords();
-    default: return build_c(CSpec{nx, ny, nz, 1, 9 + 5, 0, 4}).g.keywords();
+    case 3: return build_c(CSpec{nx, ny, nz, 1, 9 + 5, 0, 4}).g.keywords();
+    case 4: return build_c(CSpec{nx, ny, nz, 1, 5, 2, 1, 1}).g.keywords();          // geo 2 mirrored in x (left-handed)
+    case 5: return build_c(CSpec{nx, ny, nz, 1, 9 + 5, 0, 4, 2}).g.keywords();      // geo 3 mirrored in y (left-handed)
+    default: return build_c(CSpec{nx, ny, nz, 1, 5, 2, 1, 3}).g.keywords();         // geo 2 mirrored in x and y
     }
 }
 
@@ -786,6 +836,7 @@ static void case_E(int geo, int di, int ai, int du, int su, int fmt, int nncv, i
     double cmax = 0; for (double v : g1->getCOORD()) cmax = std::max(cmax, std::fabs(v)); for (double v : g1->getZCORN()) cmax = std::max(cmax, std::fabs(v));
     const double FT = 2.5e-7, delta = FT * cmax;
     const std::vector<double> o1 = observe_geom(*g1);
+    for (size_t c = 0; c < n; ++c) if (!(o1[c * NQ] > 0 && o1[c * NQ + 10] > 0)) { V("build-volume-positivity", "volume of cell " + S(c) + " of the grid to be saved is not positive: " + vf::fmt17(o1[c * NQ]) + (geo >= 4 ? std::string(" (corner-point grid ") + hand_name[geo == 4 ? 1 : geo == 5 ? 2 : 3] + ")" : std::string())); break; }
     for (int pass = 1; pass <= 2; ++pass) {       // first save uses the input COORD/ZCORN copy (if any), the second the processed arrays
         const std::string ps = " (save #" + S(pass) + ")";
         ::unlink(fn.c_str());
@@ -882,7 +933,7 @@ static void case_E(int geo, int di, int ai, int du, int su, int fmt, int nncv, i
             const std::vector<double> o2 = observe_geom(g2);
             for (size_t c = 0; c < n; ++c) {
                 const double *a = &o1[c * NQ], *b = &o2[c * NQ];
-                const double tv = 16 * a[0] * delta * (1 / a[5] + 1 / a[6] + 1 / a[7]);
+                const double tv = 16 * std::fabs(a[0]) * delta * (1 / a[5] + 1 / a[6] + 1 / a[7]);
                 std::string bad;
                 if (!(std::fabs(a[0] - b[0]) <= tv) || !(std::fabs(a[10] - b[10]) <= tv)) bad = "volume";
                 else if (!(std::fabs(a[1] - b[1]) <= 8 * delta && std::fabs(a[2] - b[2]) <= 8 * delta && std::fabs(a[3] - b[3]) <= 8 * delta)) bad = "centre";
@@ -913,7 +964,7 @@ static void do_case(const std::string& c) {
     if (k == 'A') { need(5); case_A(a[0], a[1], a[2], a[3], a[4], c); R->count("cases_index"); }
     else if (k == 'B') { need(8); case_B(a[0], a[1], a[2], a[3], a[4], a[5], a[6], a[7], c); R->count("cases_forms"); }
     else if (k == 'P') { need(8); case_P(a[0], a[1], a[2], a[3], a[4], a[5], a[6], a[7], c); R->count("cases_short_forms"); }
-    else if (k == 'C') { need(8); case_C(CSpec{a[0], a[1], a[2], a[3], a[4], a[5], a[6]}, a[7], c); R->count("cases_cpg"); }
+    else if (k == 'C') { need(8); case_C(CSpec{a[0], a[1], a[2], a[3], a[4], a[5], a[6], got >= 10 ? a[8] : 0}, a[7], c); if (got >= 10 && a[8]) R->count("cases_cpg_mirrored"); R->count("cases_cpg"); }
     else if (k == 'D') { need(1); case_D(a[0], c); R->count("cases_big_thread_grids"); }
     else if (k == 'E') { need(8); case_E(a[0], a[1], a[2], a[3], a[4], a[5], a[6], a[7], c); R->count("cases_egrid"); }
     else if (k == 'F') { need(8); g_derive = true; try { case_E(a[0], a[1], a[2], a[3], a[4], a[5], a[6], a[7], c); } catch (...) { g_derive = false; throw; } g_derive = false; R->count("cases_egrid_derived"); }
@@ -931,16 +982,17 @@ int main(int argc, char** argv) {
     const bool th = run.thorough();
     run.rule =
         "A index: all dims {1,2,3}^3 x ACTNUM (all 2^n patterns for n<=8 cells, 16 structured otherwise) x 5 construction paths, and every resetACTNUM transition p->q of those patterns; model = rank among active cells in natural order. "
-        "B forms: dims " + std::string(th ? "{1..4}^3" : "{3x3x3, 2x3x4, 4x1x2, 1x1x1}") + " x per-direction sizes {uniform,increasing,mixed} (+ per-cell DZ) x top {flat, per-column TOPS steps, planar DEPTHZ tilt, DEPTHZ saddle} x 4 unit systems, each in every applicable form of {DX/DY/DZ/TOPS, same with full TOPS, DXV/DYV/DZV/TOPS, DXV/DY/DZV/TOPS, DXV/DYV/DZV/DEPTHZ, COORD/ZCORN}: 1e-12 rel to closed forms and to the COORD/ZCORN form. EGRID files additionally: every sequence of <= 3 queries {getCellCorners first/last, getXYZ_layer top/bottom of first/last layer, load_grid_data} on one EGrid object must answer like a fresh reader. P short forms: the same dims x DZ {increasing, mixed, per-cell} x top {flat, steps} x every number L=1..nz of given layers of DZ (and of DX, DY, DZ), missing layers completed by the library, against the closed form and COORD/ZCORN. "
-        "C cpg: dims " + std::string(th ? "{1,2,3}^3 x 3 spacings" : "{2x2x2,3x2x2,1x1x1,2x3x1} x 2 spacings") + " x 25 pillar configurations (9 parallel shears, 16 converging/diverging) x layer surfaces {horizontal, tilt, wedge, alternating (all planar), bilinear saddle (non-planar, separate :nonplanar keys)}; non-parallel pillars only horizontal x 6 fault-throw patterns x 4 unit systems: exact prism/frustum volume, positivity, 2x2x2 trilinear-subdivision additivity (1e-10 rel). "
-        "D threads: every grid of B and C (incl. refined) plus 12 12x12x6 grids, OMP_NUM_THREADS in {1,2,4,16} in re-exec'ed children vs in-process, bitwise. "
-        "E egrid: 4 geometries x dims x 5 ACTNUM x deck units(4) x save units(4) x {formatted,unformatted} x NNC {none, literal list, NNC keyword} x MAPAXES {none, plain, FEET, rotated METRES} x {first,second save}; distinct = distinct observation vectors / file bytes";
+        "B forms: dims " + std::string(th ? "{1..4}^3" : "{3x3x3, 2x3x4, 4x1x2, 1x1x1}") + " x per-direction sizes {uniform,increasing,mixed} (+ per-cell DZ) x top {flat, per-column TOPS steps, planar DEPTHZ tilt, DEPTHZ saddle} x 4 unit systems, each in every applicable form of {DX/DY/DZ/TOPS, same with full TOPS, DXV/DYV/DZV/TOPS, DXV/DY/DZV/TOPS, DXV/DYV/DZV/DEPTHZ, COORD/ZCORN}: 1e-12 rel to closed forms and to the COORD/ZCORN form; HANDEDNESS: the COORD/ZCORN form also mirrored in x, in y and in both (pillar x -> xmax - x, same cell indices): volumes positive and equal to the closed form, centres/corners mirrored. EGRID files additionally: every sequence of <= 3 queries {getCellCorners first/last, getXYZ_layer top/bottom of first/last layer, load_grid_data} on one EGrid object must answer like a fresh reader. P short forms: the same dims x DZ {increasing, mixed, per-cell} x top {flat, steps} x every number L=1..nz of given layers of DZ (and of DX, DY, DZ), missing layers completed by the library, against the closed form and COORD/ZCORN. "
+        "C cpg: dims " + std::string(th ? "{1,2,3}^3 x 3 spacings" : "{2x2x2,3x2x2,1x1x1,2x3x1} x 2 spacings") + " x 25 pillar configurations (9 parallel shears, 16 converging/diverging) x layer surfaces {horizontal, tilt, wedge, alternating (all planar), bilinear saddle (non-planar, separate :nonplanar keys)}; non-parallel pillars only horizontal x 6 fault-throw patterns x 4 unit systems, and x handedness {mirrored in x, in y, in both} x " + std::string(th ? "{METRIC,FIELD}" : "{METRIC}") + ": exact prism/frustum volume of the unmirrored cell (mirror = isometry), positivity, 2x2x2 trilinear-subdivision additivity (1e-10 rel). "
+        "D threads: every grid of B and C (incl. refined) plus 48 12x12x6 grids (4 geometries x 3 ACTNUM x 4 handednesses), OMP_NUM_THREADS in {1,2,4,16} in re-exec'ed children vs in-process, bitwise. "
+        "E egrid: 4 geometries x dims x 5 ACTNUM x deck units(4) x save units(4) x {formatted,unformatted} x NNC {none, literal list, NNC keyword} x MAPAXES {none, plain, FEET, rotated METRES} x {first,second save}; plus 3 mirrored geometries (left-handed in x, in y, mirrored in both) x dims x 5 ACTNUM x 4 units x {formatted,unformatted} x MAPAXES {none, rotated}; distinct = distinct observation vectors / file bytes";
     run.assumptions = {
         "index model: active index = rank of the cell among the active cells in natural (i fastest) order; an inactive cell must not map to a valid active index (an exception is accepted)",
         "forms: DX/DY depend only on i resp. j (the TOPS form of the library has no defined geometry for DX varying with k); sizes and depths (~100 length units) chosen so that cancellation keeps rounding below 1e-13; DEPTHZ saddle tops are judged with the vertical-pillar identity V = DX*DY*DZ",
         "cpg: exact volumes for planar-faced cells: parallel sheared pillars with planar layer surfaces (shear has determinant 1) and converging/diverging pillars with horizontal cell faces (frustum integral). Additivity is asserted only where trilinear 2x2x2 subdivision is representable as COORD/ZCORN and parent = sum of children is a theorem of the trilinear cell: parallel pillars, or horizontal cell faces. The bilinear-saddle surface class (parallel pillars) has non-planar faces: it is outside the property text, is judged under the library's documented trilinear (Ponting) cell model and reports under keys ending in :nonplanar",
         "threads: cross-thread-count differential in separate processes (OMP_NUM_THREADS 1,2,4,16; team size verified in the child), NOT a controlled-scheduler exploration: a data race would be caught with high probability only",
         "egrid: geometry compared to float precision of the file (2.5e-7 relative per COORD/ZCORN value; derived quantities with the propagated bound); NNC transmissibilities are not part of an EGRID file and are not compared; PVT-M save refusal with std::exception is counted as unsupported_by_writer, a silent PVT-M write would be judged like METRIC",
+        "handedness: a grid whose x (or y) coordinate decreases with I (J) is a legal COORD/ZCORN description; the harness mirrors only the pillars (ZCORN and indices unchanged), so cell (i,j,k) is compared with the mirror image of the same cell; the signed Ponting sum changes sign under one mirror, the volume must not",
         "values outside the size/shear/throw alphabets, LGRs, radial grids, GDFILE, PINCH/MINPV, GRIDUNIT keyword not covered"};
 
     if (!run.replay_path.empty()) {
@@ -975,12 +1027,17 @@ int main(int argc, char** argv) {
         for (auto& d : cd) for (int sp = 0; sp < (th ? 3 : 2) && alive; ++sp) for (int pil = 0; pil < 25 && alive; ++pil) for (int surf = 0; surf < 5 && alive; ++surf) for (int fault = 0; fault < 6 && alive; ++fault) {
             if (!c_valid(CSpec{d[0], d[1], d[2], sp, pil, surf, fault})) continue;
             for (int u = 0; u < 4 && alive; ++u) alive = go("C" + J({d[0], d[1], d[2], sp, pil, surf, fault, u}));
+            // handedness: mirrored in x, in y, in both (quick: METRIC; thorough: METRIC and FIELD)
+            for (int hand = 1; hand < 4 && alive; ++hand) for (int u = 0; u < (th ? 2 : 1) && alive; ++u) alive = go("C" + J({d[0], d[1], d[2], sp, pil, surf, fault, u, hand}));
         }
         // D
-        for (int v = 0; v < 12 && alive; ++v) alive = go("D" + J({v}));
+        for (int v = 0; v < 48 && alive; ++v) alive = go("D" + J({v}));
         // E
         for (int geo = 0; geo < 4 && alive; ++geo) for (int di = 0; di < (th ? 5 : 2) && alive; ++di) for (int ai = 0; ai < 5 && alive; ++ai) for (int du = 0; du < 4 && alive; ++du) for (int su = 0; su < 4 && alive; ++su)
             for (int fmt = 0; fmt < 2 && alive; ++fmt) for (int nn = 0; nn < 3 && alive; ++nn) for (int mp = 0; mp < 4 && alive; ++mp) alive = go("E" + J({geo, di, ai, du, su, fmt, nn, mp}));
+        // E on mirrored (left-handed / doubly mirrored) corner-point grids: save units = deck units
+        for (int geo = 4; geo < 7 && alive; ++geo) for (int di = 0; di < (th ? 5 : 2) && alive; ++di) for (int ai = 0; ai < 5 && alive; ++ai) for (int du = 0; du < 4 && alive; ++du)
+            for (int fmt = 0; fmt < 2 && alive; ++fmt) for (int mp = 0; mp < 4 && alive; mp += 3) alive = go("E" + J({geo, di, ai, du, du, fmt, 0, mp}));
         // F: the same on grids derived with a new ZCORN
         for (int geo = 0; geo < 4 && alive; ++geo) for (int di = 0; di < (th ? 5 : 2) && alive; ++di) for (int ai = 0; ai < 5 && alive; ai += 2) for (int du = 0; du < 4 && alive; ++du)
             for (int fmt = 0; fmt < 2 && alive; ++fmt) alive = go("F" + J({geo, di, ai, du, du, fmt, 0, 0}));
